@@ -247,7 +247,7 @@ def run_case(case, ctx):
 # MANIFEST-BEGIN
 MANIFEST = {
     'technique': 'reference-recurrence monitor on Euler trajectories of generated circuits with mixed delayed/undelayed edges',
-    'level_text': 'Generated circuits with random subsets of delayed edges (2-9 steps, incl. delays that are not multiples of dt), shared sources and targets, vectorize on/off are simulated with Euler and every state variable trajectory is compared (1e-7) with the reference recurrence in which each edge delivers weight*source[k-round(d/dt)] with zero pre-history; an off-by-one in any buffer slot, a delay applied to the wrong edge or a shifted undelayed edge is an O(1) deviation because sources are non-constant. A uniform-delay family gives all delayed edges one common delay. Probe family: delays that round to exactly one step (recorded finding; the reference shifts by round(d/dt) for every delay). A matrix family runs Connectivity connections with delays through the machinery of C16. A fan_out_groups family lets one (merged) source variable project with delays into three or four different target node types. Held on observed circuits only.',
+    'level_text': 'Generated circuits with random subsets of delayed edges (2-9 steps, incl. delays that are not multiples of dt), shared sources and targets, vectorize on/off are simulated with Euler and every state variable trajectory is compared (1e-7) with the reference recurrence in which each edge delivers weight*source[k-round(d/dt)] with zero pre-history; an off-by-one in any buffer slot, a delay applied to the wrong edge or a shifted undelayed edge is an O(1) deviation because sources are non-constant. A uniform-delay family gives all delayed edges one common delay. Probe family: delays that round to exactly one step (recorded finding; the reference shifts by round(d/dt) for every delay). A matrix family runs Connectivity connections with delays through the machinery of C16. A fan_out_groups family lets one (merged) source variable project with delays into three or four different target node types. The matrix family asks in half of its cases for an undelayed and a delayed Connectivity that leave the same source variable. Held on observed circuits only.',
     'level_note': 'Trusted: vp/ref.py delay recurrence. Delays that round to one step are dropped by PyRates (recorded finding F-C09-one-step-delay, probe family); the main sweep uses 2-9 steps. Connectivity (matrix) delays: family `matrix` (population circuits with delayed weight-matrix / scalar-weight connections, delays on and off the step grid, compared unit by unit with the reference recurrence of the explicit network; generator and comparison shared with C16).',
 }
 # MANIFEST-END
